@@ -20,6 +20,7 @@ type CollectOpts struct {
 	Spelling  bool     // draw spelling variants for the rendering (otherwise canonical)
 	Hostile   bool     // add the fixed hostile inputs
 	Long      bool     // add long repetitions
+	Pumped    int      // add this many inputs of up to 240 runes whose repetitions iterate many times
 	Histories int      // number of histories per grammar
 	MaxRune   bool     // allow U+10FFFF in terminals
 	FirstID   int
@@ -140,6 +141,20 @@ func Collect(seed uint64, o CollectOpts) []*Case {
 			k := rapid.IntRange(0, len(s)).Draw(t, "splice")
 			add(s[:k] + "\xff" + s[k:])
 			add(s + "\x00")
+		}
+		for k := 0; k < o.Pumped; k++ {
+			s := gram.SamplePumped(g, 0, ch, 240, 48)
+			if len(s) < 40 {
+				// no repetition on the way: repeat what there is (a prefix usually still matches)
+				unit := s
+				if len(unit) == 0 {
+					unit = []rune{'a'}
+				}
+				for len(s) < 120 {
+					s = append(s, unit...)
+				}
+			}
+			add(string(s))
 		}
 		if o.Long {
 			body := string(gram.Sample(g, 0, ch, 6))
